@@ -94,6 +94,11 @@ Theorem C20_sharing_rejected : forall D K n (h : heap D K) seen a,
 Proof. exact check_rejects_seen. Qed.
 Print Assumptions C20_sharing_rejected.
 
+Theorem C20_cycle_rejected : forall D K n (h : heap D K) seen a nd k c,
+  nth_error h a = Some nd -> In (k, c) (hn_kids D K nd) -> reach D K h c a -> check D K n h seen a = None.
+Proof. exact check_rejects_cycle. Qed.
+Print Assumptions C20_cycle_rejected.
+
 Example C20_example :
   (* a three-node tree: root -> [x -> leaf; y -> leaf'] ; the clone lives at fresh addresses 3..5 *)
   let h := [mkNode nat nat 10 [(0, 1); (1, 2)]; mkNode nat nat 11 []; mkNode nat nat 12 []] in
